@@ -49,7 +49,7 @@ def base_local(body, defs, place, depth=0):
         rv = ds[0][3]["rv"]
         if rv["k"] in ("ref", "rawptr"):
             return base_local(body, defs, rv["p"], depth + 1)
-        if rv["k"] == "use" and mir.is_place_op(rv["o"]):
+        if rv["k"] == "use" and mir.is_place_op(rv["o"]) and len(rv["o"][1]) == 1:
             return base_local(body, defs, rv["o"][1], depth + 1)
     return l
 
